@@ -140,16 +140,17 @@ package keeper
 
 // ExtendMetaDuration: the model's deletion is moved to expiredAt if that is later than its current deletion height
 //@ func (Keeper) ExtendMetaDuration(ctx, dataId, expiredAt)
-//@   requires has(Metadata, dataId) && Metadata[dataId].CreatedAt + Metadata[dataId].Duration <= MaxUint64
+//@   requires has(Metadata, dataId)
 //@   requires [C11.sched.once] has(Metadata, dataId) && has(ExpiredData, u64(Metadata[dataId].CreatedAt + Metadata[dataId].Duration)) ==>
 //@       forall i int, j int :: 0 <= i && i < j && j < len(ExpiredData[u64(Metadata[dataId].CreatedAt + Metadata[dataId].Duration)].Data)
 //@         ==> !(ExpiredData[u64(Metadata[dataId].CreatedAt + Metadata[dataId].Duration)].Data[i] == dataId && ExpiredData[u64(Metadata[dataId].CreatedAt + Metadata[dataId].Duration)].Data[j] == dataId)
 //@   modifies Metadata[dataId], ExpiredData[u64(Metadata[dataId].CreatedAt + Metadata[dataId].Duration)], ExpiredData[expiredAt]
-//@   ensures [C11.extend.later] old(has(Metadata, dataId)) && expiredAt > old(Metadata[dataId].CreatedAt + Metadata[dataId].Duration) ==>
-//@       has(Metadata, dataId) && Metadata[dataId].CreatedAt + Metadata[dataId].Duration == expiredAt && Metadata[dataId].CreatedAt == old(Metadata[dataId].CreatedAt)
+//@   ensures [C11.extend.later] old(has(Metadata, dataId)) && expiredAt > old(u64(Metadata[dataId].CreatedAt + Metadata[dataId].Duration)) ==>
+//@       has(Metadata, dataId) && u64(Metadata[dataId].CreatedAt + Metadata[dataId].Duration) == expiredAt && Metadata[dataId].CreatedAt == old(Metadata[dataId].CreatedAt)
+//@       && (expiredAt >= Metadata[dataId].CreatedAt ==> Metadata[dataId].CreatedAt + Metadata[dataId].Duration == expiredAt)
 //@       && has(ExpiredData, expiredAt) && contains(ExpiredData[expiredAt].Data, dataId)
-//@       && (has(ExpiredData, old(Metadata[dataId].CreatedAt + Metadata[dataId].Duration)) ==> !contains(ExpiredData[old(Metadata[dataId].CreatedAt + Metadata[dataId].Duration)].Data, dataId))
-//@   ensures [C11.extend.notearlier] old(has(Metadata, dataId)) && expiredAt <= old(Metadata[dataId].CreatedAt + Metadata[dataId].Duration) ==>
+//@       && (has(ExpiredData, old(u64(Metadata[dataId].CreatedAt + Metadata[dataId].Duration))) ==> !contains(ExpiredData[old(u64(Metadata[dataId].CreatedAt + Metadata[dataId].Duration))].Data, dataId))
+//@   ensures [C11.extend.notearlier] old(has(Metadata, dataId)) && expiredAt <= old(u64(Metadata[dataId].CreatedAt + Metadata[dataId].Duration)) ==>
 //@       Metadata[dataId] == old(Metadata[dataId]) && has(Metadata, dataId)
 //@       && (forall h int :: 0 <= h && h <= MaxUint64 ==> ExpiredData[h] == old(ExpiredData[h]) && (has(ExpiredData, h) <==> old(has(ExpiredData, h))))
 //@   ensures [C11.extend.inv.once] old(forall c string, h int, i int, j int :: 0 <= h && h <= MaxUint64 && has(ExpiredData, h) && 0 <= i && i < j && j < len(ExpiredData[h].Data) ==> !(ExpiredData[h].Data[i] == c && ExpiredData[h].Data[j] == c))
@@ -162,7 +163,7 @@ package keeper
 //@       && Metadata[dataId].OrderId == old(Metadata[dataId].OrderId) && Metadata[dataId].Status == old(Metadata[dataId].Status) && Metadata[dataId].ReadonlyDids == old(Metadata[dataId].ReadonlyDids)
 //@       && Metadata[dataId].ReadwriteDids == old(Metadata[dataId].ReadwriteDids) && Metadata[dataId].CreatedAt == old(Metadata[dataId].CreatedAt)
 //@       && Metadata[dataId].Alias == old(Metadata[dataId].Alias) && Metadata[dataId].GroupId == old(Metadata[dataId].GroupId)
-//@       && Metadata[dataId].CreatedAt + Metadata[dataId].Duration <= MaxUint64 && Metadata[dataId].Duration >= old(Metadata[dataId].Duration)
+//@       && (old(Metadata[dataId].CreatedAt + Metadata[dataId].Duration) <= MaxUint64 && expiredAt >= Metadata[dataId].CreatedAt ==> Metadata[dataId].CreatedAt + Metadata[dataId].Duration <= MaxUint64)
 
 // UpdateMeta applies a completed order to its data model: new version (1), force-push replacing the latest version (2), renewal (3).
 //@ func (Keeper) UpdateMeta(ctx, order) (err)
@@ -188,6 +189,8 @@ package keeper
 //@   ensures [C16.updatemeta.renew] err == nil && order.Operation == 3 ==> Metadata[order.DataId].Commits == old(Metadata[order.DataId].Commits) && Metadata[order.DataId].Commit == old(Metadata[order.DataId].Commit)
 //@       && Metadata[order.DataId].OrderId == order.Id && Metadata[order.DataId].CreatedAt == old(Metadata[order.DataId].CreatedAt) && Metadata[order.DataId].Duration == old(Metadata[order.DataId].Duration)
 //@       && Metadata[order.DataId].Alias == old(Metadata[order.DataId].Alias) && Metadata[order.DataId].GroupId == old(Metadata[order.DataId].GroupId)
+//@   ensures [C07.updatemeta.debts] (forall c string :: old(has(PledgeDebt, c)) ==> old(PledgeDebt[c].Debt.Amount) >= 0) ==> forall c string :: has(PledgeDebt, c) ==> PledgeDebt[c].Debt.Amount >= 0
+//@   ensures [C09.updatemeta.exists] has(Metadata, order.DataId) <==> old(has(Metadata, order.DataId))
 //@   ensures [C09.updatemeta.err] err != nil && order.Operation != 2 ==> Metadata[order.DataId] == old(Metadata[order.DataId]) && (has(Metadata, order.DataId) <==> old(has(Metadata, order.DataId)))
 //@   ensures [C09.updatemeta.frame.pledge] order.Operation != 2 ==> forall c string :: Pledge[c] == old(Pledge[c]) && (has(Pledge, c) <==> old(has(Pledge, c)))
 //@   ensures [C09.updatemeta.frame.debt] order.Operation != 2 ==> forall c string :: PledgeDebt[c] == old(PledgeDebt[c]) && (has(PledgeDebt, c) <==> old(has(PledgeDebt, c)))
